@@ -1,6 +1,7 @@
 CONSTANTS
   Depth = 3
   MapDepth = 2
+  Narrow = TRUE
 SPECIFICATION Spec
 INVARIANTS InterningTablesDistinct IdsStable TokensAlwaysResolve JoinIdempotentOnAbsolute EmitCase
 CHECK_DEADLOCK FALSE
